@@ -276,16 +276,28 @@ class IMAPClientProxy:
                 # that we call the 'do_done()' method on the client command
                 # processor.
                 #
+                # NOTE: Anything else is a protocol error by the client, but
+                #       if it looks like a command it still gets a tagged
+                #       answer (and its text, which may hold the CRLF of a
+                #       literal, is kept on one line.) We stay in IDLE.
+                #
                 if self.cmd_processor.idling:
-                    ls_imap_msg = imap_msg.lower().strip()
-                    if ls_imap_msg.endswith("idle"):
-                        await self.push("+ idling")
-                    elif ls_imap_msg != "done":
-                        await self.push(
-                            f"* NO Expected 'DONE' not: {imap_msg}\r\n"
-                        )
-                    else:
+                    if imap_msg.lower().strip() == "done":
                         await self.cmd_processor.do_done()
+                        continue
+                    text = imap_msg.replace("\r", " ").replace("\n", " ")
+                    tag = "*"
+                    if " " in text.strip():
+                        imap_cmd = IMAPClientCommand(imap_msg)
+                        try:
+                            imap_cmd.parse()
+                        except BadCommand:
+                            pass
+                        if imap_cmd.tag is not None:
+                            tag = imap_cmd.tag
+                    await self.push(
+                        f"{tag} BAD Expected 'DONE' not: {text.strip()}\r\n"
+                    )
                     continue
 
                 try:
